@@ -440,7 +440,7 @@ func (g *gen7) env() *Env7 {
 	r := g.r
 	e := &Env7{Carrier: r.pick([]string{"map", "struct", "ptrstruct"})}
 	n := 1 + r.intn(4)
-	names := []string{"x", "xs", "X", "o", "ob", "l", "m", "p", "q", "x_1", "Y"}
+	names := []string{"x", "xs", "X", "o", "ob", "l", "m", "p", "q", "x_1", "Y", "len", "inc"} // the last two coincide with a built-in and a registered function
 	off := r.intn(len(names))
 	for i := 0; i < n; i++ {
 		b := &Field{Name: names[(off+i)%len(names)], V: g.value(1+r.intn(3), false)}
@@ -906,6 +906,7 @@ type Hist7 struct {
 	Steps []*Step7     `json:"steps"`
 	Reuse bool         `json:"reuse"` // reuse the previous step's host object when the step is "same"
 	RawA  bool         `json:"raw_a,omitempty"` // compile against a raw *types.Env (conv.TypeEnvOf(A))
+	Layer int          `json:"layer,omitempty"` // RawA: the first Layer names (sorted) live in a BASE level the compile-time environment is Derive()d from
 	Sim   simrt.Config `json:"sim"`
 }
 
@@ -973,6 +974,12 @@ func genHist7(r *rng) *Hist7 {
 	}
 	h.Reuse = r.chance(0.5)
 	h.RawA = r.chance(0.25)
+	if h.RawA && r.chance(0.2) {
+		// a layered compile-time environment: names bound in an outer level are known at
+		// compile time like any other (the pinned library refuses such an environment, then
+		// there is nothing to check; if it is ever accepted, its outer names must be checked too)
+		h.Layer = 1 + r.intn(3)
+	}
 	h.Sim = simrt.Config{Seed: r.u64() | 1, ClockSeam: true, ClockBase: 1700000000, MaxSteps: 20_000_000,
 		MapMode: []int{simrt.MapShuffle, simrt.MapReverse, simrt.MapRotate, simrt.MapSorted}[r.intn(4)], MapParam: 1 + r.intn(4)}
 	if r.chance(0.3) {
@@ -1057,6 +1064,22 @@ func runHist7(h *Hist7, x *evalCtx) hist7Result {
 			if h.RawA {
 				if te, err := conv.TypeEnvOf(hostA); err == nil {
 					compileEnv = te
+					if h.Layer > 0 {
+						var names []string
+						te.ForEach(func(k string, _ *types.Type) { names = append(names, k) })
+						sort.Strings(names)
+						base := types.NewEnv()
+						top := base.Derive()
+						for i, k := range names {
+							ty, _ := te.Get(k)
+							if i < h.Layer {
+								base.Put(k, ty)
+							} else {
+								top.Put(k, ty)
+							}
+						}
+						compileEnv = top
+					}
 				}
 			}
 			c, compileErr = eng.Compile(h.Src, compileEnv)
